@@ -431,7 +431,12 @@ func (w *World) submit(c *Call) result {
 	w.regSeq++
 	c.wake = make(chan result, 1)
 	c.sortKey = c.Client.Name + "\x00" + c.Tag + "\x00" + c.bucketName() + "\x00" + c.Op.String() + "\x00" + c.renderKey() + "\x00" + strconv.Itoa(len(c.Data)) + "\x00" + payloadSig(c) + "\x00" + callPath()
-	w.parked = append(w.parked, c)
+	if w.hold != nil && w.hold(c) {
+		c.Client.Held = true
+		w.held = append(w.held, c)
+	} else {
+		w.parked = append(w.parked, c)
+	}
 	w.mu.Unlock()
 	return <-c.wake
 }
